@@ -1394,7 +1394,8 @@ class SpanElement(ContentElement):
 
   @staticmethod
   def is_instance(xml_elem):
-    return xml_elem.tag == SpanElement.qn and SpanElement.get_ruby_attr(xml_elem) is None
+    # tts:ruby="none", the initial value, denotes a span that is not a ruby element
+    return xml_elem.tag == SpanElement.qn and SpanElement.get_ruby_attr(xml_elem) in (None, "none")
 
   @staticmethod
   def get_ruby_attr(ttml_span):
